@@ -13,9 +13,9 @@ import (
 
 func init() {
 	register(&PropSpec{
-		ID: "C10",
+		ID:          "C10",
 		Explanation: "Structural necessary conditions for 'Close is final'. T1: every exported sentinel of package errors wraps (%w) another sentinel and the chain reaches ErrISCP; FailedMessageError.Is accepts ErrISCP. O1: every exported method of iscp.Conn that reaches a wire-level send or subscribe does so only behind a dominating closed-guard returning ErrConnectionClosed, or through the retry wrapper whose closed sentinel is feasible (E1); the stream methods return ErrStreamClosed on the closed state. O2: reconnect refuses before dialing when the status is Closed, its retry closure stops on Closed, and the run loop returns when reconnect fails. O3: every path of Conn.close after SendDisconnect closes the wire connection. O5: opening a stream starts a goroutine that waits for connStatusClosed and then cancels the stream. P1: explicit panics in library code are limited to an allowed table (construction-time misuse, unreachable-after-switch); in particular no panic on a lost status race.",
-		NotDecided: []string{"no goroutine left behind (termination of ~40 goroutine sites)", "silence on the wire after Disconnect as observed by the peer", "at-most-once events under concurrent Close", "a buffered item returned by a read after Close"},
+		NotDecided:  []string{"no goroutine left behind (termination of ~40 goroutine sites)", "silence on the wire after Disconnect as observed by the peer", "at-most-once events under concurrent Close", "a buffered item returned by a read after Close"},
 		Rules: func(r *Run) {
 			ruleC10T1(r)
 			ruleC10O1(r)
@@ -427,27 +427,27 @@ func ruleC10O5(r *Run) {
 
 // allowedPanics: functions that may contain an explicit panic, with the reason.
 var allowedPanics = map[string]string{
-	"(*iscp.Downstream).wireToDownstreamChunk":       "unreachable default of an exhaustive type switch over the two id-or-alias variants (the decoder rejects other values)",
-	"message.MustParseDataFilter":                    "Must-style constructor, documented to panic on a bad pattern",
-	"transport/nic.OpenManager":                      "construction-time misuse (empty NIC list)",
-	"transport/webtransport.New":                     "the datagram goroutine re-panics with an explanatory message when datagrams are not enabled in the configuration",
-	"transport/quic.New":                             "the datagram goroutine re-panics with an explanatory message when datagrams are not enabled in the configuration",
+	"(*iscp.Downstream).wireToDownstreamChunk":           "unreachable default of an exhaustive type switch over the two id-or-alias variants (the decoder rejects other values)",
+	"message.MustParseDataFilter":                        "Must-style constructor, documented to panic on a bad pattern",
+	"transport/nic.OpenManager":                          "construction-time misuse (empty NIC list)",
+	"transport/webtransport.New":                         "the datagram goroutine re-panics with an explanatory message when datagrams are not enabled in the configuration",
+	"transport/quic.New":                                 "the datagram goroutine re-panics with an explanatory message when datagrams are not enabled in the configuration",
 	"(*transport/webtransport.Config).connectionOrPanic": "construction-time misuse (nil connection)",
-	"(*transport/quic.Config).connectionOrPanic":     "construction-time misuse (nil connection)",
+	"(*transport/quic.Config).connectionOrPanic":         "construction-time misuse (nil connection)",
 	"(*transport/websocket.Config).webSocketConnOrPanic": "construction-time misuse (nil connection)",
-	"(transport/webtransport.Config).connectionOrPanic": "construction-time misuse (nil connection)",
-	"(transport/quic.Config).connectionOrPanic":      "construction-time misuse (nil connection)",
-	"(transport/websocket.Config).webSocketConnOrPanic": "construction-time misuse (nil connection)",
-	"(*transport/websocket/gorilla.Conn).Reader":     "unreachable after a switch over the two websocket message types",
-	"(*transport/websocket/gorilla.Conn).Writer":     "unreachable after a switch over the two websocket message types",
-	"(*transport/websocket/nhooyr.Conn).Reader":      "unreachable after a switch over the two websocket message types",
-	"(*transport/websocket/nhooyr.Conn).Writer":      "unreachable after a switch over the two websocket message types",
-	"(*transport/websocket/coder.Conn).Reader":       "unreachable after a switch over the two websocket message types",
-	"(*transport/websocket/coder.Conn).Writer":       "unreachable after a switch over the two websocket message types",
-	"transport/websocket.RegisterDialFunc":           "init-time double registration",
-	"(*transport/reconnect.Transport).CloseWithStatus": "Dial refuses transports that are not Closers, so the fallback is unreachable",
-	"(*wire.ClientConn).openUpstream":                "unsupported QoS: the three QoS values are enumerated, callers pass validated values",
-	"(*wire.ClientConn).SubscribeDownstreamChunk":    "unsupported QoS: the three QoS values are enumerated",
+	"(transport/webtransport.Config).connectionOrPanic":  "construction-time misuse (nil connection)",
+	"(transport/quic.Config).connectionOrPanic":          "construction-time misuse (nil connection)",
+	"(transport/websocket.Config).webSocketConnOrPanic":  "construction-time misuse (nil connection)",
+	"(*transport/websocket/gorilla.Conn).Reader":         "unreachable after a switch over the two websocket message types",
+	"(*transport/websocket/gorilla.Conn).Writer":         "unreachable after a switch over the two websocket message types",
+	"(*transport/websocket/nhooyr.Conn).Reader":          "unreachable after a switch over the two websocket message types",
+	"(*transport/websocket/nhooyr.Conn).Writer":          "unreachable after a switch over the two websocket message types",
+	"(*transport/websocket/coder.Conn).Reader":           "unreachable after a switch over the two websocket message types",
+	"(*transport/websocket/coder.Conn).Writer":           "unreachable after a switch over the two websocket message types",
+	"transport/websocket.RegisterDialFunc":               "init-time double registration",
+	"(*transport/reconnect.Transport).CloseWithStatus":   "Dial refuses transports that are not Closers, so the fallback is unreachable",
+	"(*wire.ClientConn).openUpstream":                    "unsupported QoS: the three QoS values are enumerated, callers pass validated values",
+	"(*wire.ClientConn).SubscribeDownstreamChunk":        "unsupported QoS: the three QoS values are enumerated",
 }
 
 func ruleC10P1(r *Run) {
